@@ -2,9 +2,10 @@
 
   * configs(modname)     the (mode, fetch order) configurations of a cpu module (ARM: ARM/Thumb x ibigend)
   * dump_config()        T(a): the real tree of a mode (masks, keys, leaf spec ids) + the mode's spec list
-  * observe_word()       T(b): one disassemble(bytes) call observed through a wrapper of ispec.decode
-                         (which spec ended every prefix level) next to the list of ALL specs of the mode
-                         whose ispec.decode accepts the same input with an equal fresh partial instruction
+  * observe_word()       T(b): one disassemble(bytes) call observed through a wrapper of ispec.decode (which
+                         specs got past the fixed-bit test, in which order, and which one ended every prefix
+                         level) next to the list of ALL specs of the mode whose fixed bits match the same input
+                         (cand) and of those that also accept it with a fresh partial instruction (acc)
   * replay_tables()      G: TLC-generated spec tables as real ispec objects + a real disassembler
 The verdicts (first accepted in most-constrained-first order, routing, leaf order, ...) are computed by
 TLC (specs/DecTreeTrace.tla, specs/DecTree.tla); nothing here ranks or sorts specs.
@@ -134,7 +135,10 @@ def install():
                 return orig(self, istr, endian, i, iclass)
             try:
                 r = orig(self, istr, endian, i, iclass)
-            except (core.DecodeError, core.InstructionError):
+            except core.DecodeError:
+                LOG.calls.append((id(self), len(istr), "maskrej"))
+                raise
+            except core.InstructionError:
                 LOG.calls.append((id(self), len(istr), "rej"))
                 raise
             except Exception as e:
@@ -234,8 +238,11 @@ def observe_word(d, L, index, data, e):
         setattr(d, "_disassembler__i", None)
     # which spec ended each level (a level = one remaining length; a prefix spec moves to the next one)
     chosen = {}
+    tried = {}
     for (sid, n, r) in LOG.calls:
-        if r != "rej":
+        if r != "maskrej":
+            tried.setdefault(n, []).append(index.get(sid, 0))   # fixed bits matched: precondition / hook ran
+        if r not in ("rej", "maskrej"):
             chosen[n] = (sid, r)
     by_id0 = dict((id(s), s) for s in L)
     lens = [len(data)]
@@ -262,6 +269,7 @@ def observe_word(d, L, index, data, e):
     for k, n in enumerate(lens):
         rest = data[len(data) - n:]
         acc = []
+        cand = []
         try:
             part = partial(k)
         except Exception as ex:      # the real chain cannot be replayed: report it as an outcome mismatch
@@ -270,19 +278,23 @@ def observe_word(d, L, index, data, e):
         for idx, s in enumerate(L):
             try:
                 r = orig(s, rest, e, part, d.iclass)
-            except core.DecodeError:
+            except core.DecodeError:        # length / fixed bits: raised before anything is touched
                 continue
             except core.InstructionError:
+                cand.append(idx + 1)
                 part = partial(k)
                 continue
             except Exception:
+                cand.append(idx + 1)
                 acc.append(idx + 1)
                 part = partial(k)
                 continue
+            cand.append(idx + 1)
             acc.append(idx + 1)
             part = partial(k)
         ch = chosen.get(n)
-        levels.append({"bytes": list(rest[:48]), "acc": acc, "chosen": index.get(ch[0], 0) if ch else 0})
+        levels.append({"bytes": list(rest[:48]), "cand": cand, "acc": acc, "tried": tried.get(n, []),
+                       "chosen": index.get(ch[0], 0) if ch else 0})
     # --- the reference outcome: decode again along the chosen chain, fresh objects ------------------------
     if refout == "none" and levels:
         last = lens[-1]
